@@ -184,8 +184,9 @@ def gen_wf(rng, max_eps=7, p_mutual=0.05, p_double_q=0.03):
         bysort = {}
         for v in syms:
             bysort.setdefault(v[0], []).append(v)
+        dense = rng.random() < 0.5        # x0,x1,.. / i0,i1,.. : quantifier ids q<n> collide as often as possible
         for sort, vs in bysort.items():
-            ks = rng.sample(range(0, len(vs) + 3), len(vs))
+            ks = list(range(len(vs))) if dense else rng.sample(range(0, len(vs) + 3), len(vs))
             for v, k in zip(vs, ks):
                 number[v] = [v[0], k]
 
